@@ -98,6 +98,65 @@ instance (u v : F) : Decidable (sr_isqr u v) := by unfold sr_isqr; infer_instanc
 /-- `sr_y(u, v) = ite(sr_isqr(u, v), sr_y1(u, v), fmul(sr_y1(u, v), F(C2)))` -/
 def sr_y (u v : F) : F := if sr_isqr u v then sr_y1 u v else sr_y1 u v * ((C2 : ℤ) : F)
 
+/-! ### map to curve (`/repo/contracts_verif.go`): SSWU onto E' : y² = x³ + A'x + B' (RFC 9380 F.2, Z = -11),
+the 3-isogeny E' → E (E.1), the chord sum on E'.  One line per `//@ const` / `//@ define`, same `ite` structure.
+`Secp/SecpSMT2.lean` repeats the lines it needs verbatim (it cannot import this file, see there);
+`scripts/smt_table.py` checks that the copies are identical. -/
+
+def ZC : ℤ := 0xfffffffffffffffffffffffffffffffffffffffffffffffffffffffefffffc24
+def AC : ℤ := 0x3f8731abdd661adca08a5558f0f5d272e953d363cb6f0e5d405447c01a444533
+def BC : ℤ := 1771
+def K10 : ℤ := 0x8e38e38e38e38e38e38e38e38e38e38e38e38e38e38e38e38e38e38daaaaa8c7
+def K11 : ℤ := 0x7d3d4c80bc321d5b9f315cea7fd44c5d595d2fc0bf63b92dfff1044f17c6581
+def K12 : ℤ := 0x534c328d23f234e6e2a413deca25caece4506144037c40314ecbd0b53d9dd262
+def K13 : ℤ := 0x8e38e38e38e38e38e38e38e38e38e38e38e38e38e38e38e38e38e38daaaaa88c
+def K20 : ℤ := 0xd35771193d94918a9ca34ccbb7b640dd86cd409542f8487d9fe6b745781eb49b
+def K21 : ℤ := 0xedadc6f64383dc1df7c4b2d51b54225406d36b641f5e41bbc52a56612a8c6d14
+def K30 : ℤ := 0x4bda12f684bda12f684bda12f684bda12f684bda12f684bda12f684b8e38e23c
+def K31 : ℤ := 0xc75e0c32d5cb7c0fa9d0a54b12a0a6d5647ab046d686da6fdffc90fc201d71a3
+def K32 : ℤ := 0x29a6194691f91a73715209ef6512e576722830a201be2018a765e85a9ecee931
+def K33 : ℤ := 0x2f684bda12f684bda12f684bda12f684bda12f684bda12f684bda12f38e38d84
+def K40 : ℤ := 0xfffffffffffffffffffffffffffffffffffffffffffffffffffffffefffff93b
+def K41 : ℤ := 0x7a06534bb8bdb49fd5e9e6632722c2989467c1bfc8e8d978dfb425d2685c2573
+def K42 : ℤ := 0x6484aa716545ca2cf3a70c3fa8fe337e0a3d21162f0d6299a7bf8192bfd2a76f
+
+def sgn0 (v : F) : ℤ := fint v % 2
+def sswu_tv1 (u : F) : F := ((ZC : ℤ) : F) * (u*u)
+def sswu_tv2 (u : F) : F := sswu_tv1 u * sswu_tv1 u + sswu_tv1 u
+def sswu_tv3 (u : F) : F := ((BC : ℤ) : F) * (sswu_tv2 u + ((1 : ℤ) : F))
+def sswu_tv4 (u : F) : F := ((AC : ℤ) : F) * (if sswu_tv2 u = ((0 : ℤ) : F) then ((ZC : ℤ) : F) else -(sswu_tv2 u))
+def sswu_gxn (u : F) : F := (sswu_tv3 u * sswu_tv3 u + ((AC : ℤ) : F) * (sswu_tv4 u * sswu_tv4 u)) * sswu_tv3 u + ((BC : ℤ) : F) * (sswu_tv4 u * sswu_tv4 u * sswu_tv4 u)
+def sswu_gxd (u : F) : F := sswu_tv4 u * sswu_tv4 u * sswu_tv4 u
+def sswu_sq (u : F) : Prop := sr_isqr (sswu_gxn u) (sswu_gxd u)
+instance (u : F) : Decidable (sswu_sq u) := by unfold sswu_sq; infer_instance
+def sswu_y1 (u : F) : F := sr_y (sswu_gxn u) (sswu_gxd u)
+def sswu_xn (u : F) : F := if sswu_sq u then sswu_tv3 u else sswu_tv1 u * sswu_tv3 u
+def sswu_y0 (u : F) : F := if sswu_sq u then sswu_y1 u else sswu_tv1 u * u * sswu_y1 u
+def sswu_x (u : F) : F := sswu_xn u * (sswu_tv4 u)⁻¹
+def sswu_y (u : F) : F := if sgn0 u = sgn0 (sswu_y0 u) then sswu_y0 u else -(sswu_y0 u)
+def onE3 (x y : F) : Prop := y*y = x*x*x + ((AC : ℤ) : F)*x + ((BC : ℤ) : F)
+
+def iso_xnum (x : F) : F := ((K13 : ℤ) : F)*(x*x*x) + ((K12 : ℤ) : F)*(x*x) + ((K11 : ℤ) : F)*x + ((K10 : ℤ) : F)
+def iso_xden (x : F) : F := x*x + ((K21 : ℤ) : F)*x + ((K20 : ℤ) : F)
+def iso_ynum (x : F) : F := ((K33 : ℤ) : F)*(x*x*x) + ((K32 : ℤ) : F)*(x*x) + ((K31 : ℤ) : F)*x + ((K30 : ℤ) : F)
+def iso_yden (x : F) : F := x*x*x + ((K42 : ℤ) : F)*(x*x) + ((K41 : ℤ) : F)*x + ((K40 : ℤ) : F)
+def iso_id (x : F) : Prop := (iso_xden x)⁻¹ = ((0 : ℤ) : F) ∨ iso_yden x = ((0 : ℤ) : F)
+instance (x : F) : Decidable (iso_id x) := by unfold iso_id; infer_instance
+def iso_x (x : F) : F := if iso_id x then ((0 : ℤ) : F) else iso_xnum x * (iso_xden x)⁻¹
+def iso_y (x y : F) : F := if iso_id x then ((1 : ℤ) : F) else y * iso_ynum x * (iso_yden x)⁻¹
+def iso_z (x : F) : F := if iso_id x then ((0 : ℤ) : F) else ((1 : ℤ) : F)
+
+def chord_l (x2 y2 x1 y1 : F) : F := (y2 - y1) * (x2 - x1)⁻¹
+def chord_x (x2 y2 x1 y1 : F) : F := chord_l x2 y2 x1 y1 * chord_l x2 y2 x1 y1 - x1 - x2
+def chord_y (x2 y2 x1 y1 : F) : F := chord_l x2 y2 x1 y1 * (x1 - chord_x x2 y2 x1 y1) - y1
+/-- `mapc(u)`: SSWU followed by the isogeny, as a group element -/
+noncomputable def mapc (u : F) : G := ptf (iso_x (sswu_x u)) (iso_y (sswu_x u) (sswu_y u)) (iso_z (sswu_x u))
+
+/-- The body of the lemma line `iso_hom_chord`, tagged `{lean: ASSUMED (RFC 9380 6.6.3: iso_map is a group
+homomorphism)}` in `/repo/contracts_verif.go`.  It is NOT proved here (no theorem `SecpSMT.iso_hom_chord` exists);
+this definition only records the literal translation of what is assumed. -/
+def iso_hom_chord_statement (x2 y2 x1 y1 : F) : Prop := (onE3 x2 y2 ∧ onE3 x1 y1 ∧ x1 ≠ x2) → ptf (iso_x (chord_x x2 y2 x1 y1)) (iso_y (chord_x x2 y2 x1 y1) (chord_y x2 y2 x1 y1)) (iso_z (chord_x x2 y2 x1 y1)) = ptf (iso_x x2) (iso_y x2 y2) (iso_z x2) + ptf (iso_x x1) (iso_y x1 y1) (iso_z x1)
+
 /-- the `//@ define rcbX ...` lines are `Secp.rcbX` etc. (literal forms with `F(21)`, `Y*Y`, ...) -/
 theorem rcbX_def (X1 Y1 Z1 X2 Y2 Z2 : F) : Secp.rcbX X1 Y1 Z1 X2 Y2 Z2 =
     (X1*Y2 + X2*Y1)*(Y1*Y2 - ((21:ℤ):F)*Z1*Z2) - ((21:ℤ):F)*(Y1*Z2 + Y2*Z1)*(X1*Z2 + X2*Z1) := by
@@ -509,6 +568,34 @@ theorem poly_nonzero (x : F) : secp_poly x ≠ ((0 : ℤ) : F) := by
 
 theorem sq_zero (y : F) : (y * y = ((0 : ℤ) : F)) ↔ (y = ((0 : ℤ) : F)) := by
   rw [Int.cast_zero]; exact mul_self_eq_zero
+
+/-! ### contracts_verif.go: map to curve
+
+`sswu_on_curve` and `iso_valid` are in `SecpSMT2.lean` (they need `SecpM`/`SecpI`, which clash with `SecpN`).
+`iso_hom_chord` is ASSUMED in the contract file and deliberately has no theorem (see `iso_hom_chord_statement`). -/
+
+theorem neg_zero_iff (y : F) : (-y = ((0 : ℤ) : F)) ↔ (y = ((0 : ℤ) : F)) := by
+  rw [Int.cast_zero]; exact neg_eq_zero
+
+/-- The chord sum of two points of E' with different x is on E' (holds over any field, for any A', B'):
+with `l (x2 - x1) = y2 - y1`, `x3 = l² - x1 - x2`, `y3 = l (x1 - x3) - y1`,
+`(x2 - x1) (y3² - x3³ - A x3 - B) = (x2 - x3) e1 + (x3 - x1) e2 + ...` where `e_i` are the curve equations. -/
+theorem chord_on_curve (x2 y2 x1 y1 : F) :
+    (onE3 x2 y2 ∧ onE3 x1 y1 ∧ x1 ≠ x2) → onE3 (chord_x x2 y2 x1 y1) (chord_y x2 y2 x1 y1) := by
+  rintro ⟨h2, h1, hne⟩
+  have hd : x2 - x1 ≠ 0 := sub_ne_zero.2 (Ne.symm hne)
+  have hl : chord_l x2 y2 x1 y1 * (x2 - x1) = y2 - y1 := by
+    unfold chord_l; rw [mul_assoc, inv_mul_cancel₀ hd, mul_one]
+  unfold onE3 at h1 h2 ⊢
+  unfold chord_y chord_x
+  generalize chord_l x2 y2 x1 y1 = l at hl ⊢
+  generalize ((AC : ℤ) : F) = A at h1 h2 ⊢
+  generalize ((BC : ℤ) : F) = B at h1 h2 ⊢
+  have key : (x2 - x1) * ((l * (x1 - (l*l - x1 - x2)) - y1) * (l * (x1 - (l*l - x1 - x2)) - y1)
+      - ((l*l - x1 - x2) * (l*l - x1 - x2) * (l*l - x1 - x2) + A * (l*l - x1 - x2) + B)) = 0 := by
+    linear_combination (x2 - (l*l - x1 - x2)) * h1 + ((l*l - x1 - x2) - x1) * h2
+      + ((l*l - x1 - x2) - x1) * (y2 + y1 + l * (x2 - x1)) * hl
+  exact sub_eq_zero.1 ((mul_eq_zero.1 key).resolve_left hd)
 
 /-! ### contracts_verif.go: ghost entropy stream
 
